@@ -82,6 +82,14 @@ type Base struct {
 	// resync round happens (a system transition) before the state counts as quiescent.
 	ResyncMode    bool
 	ResyncPending bool
+	// ColdStart: after a restart every informer lists on its own (transition "sync:<resource>"):
+	// its cache fills and its handlers see the initial Adds while the caches of the resources
+	// that have not listed yet are still empty. Workers, stores' recovery and everything else
+	// registered with WhenSynced wait until all have listed (WaitForCacheSync). Replay mode only.
+	ColdStart     bool
+	ColdResources []string
+	Unsynced      []string
+	afterSync     []func()
 	// FaultLog lists the injected faults of this history as features ("fault:update/jobs/status=conflict").
 	FaultLog []string
 	// StaticFeatures are scenario-level features (e.g. "foreign-pod").
@@ -134,8 +142,42 @@ func (b *Base) Restart() {
 	b.Queues = map[string]*sim.Queue{}
 	b.Workers = map[string]Worker{}
 	b.Restarts++
-	b.Ctx = sim.NewContext(b.API, "ctrl", false, b.Configs)
+	b.afterSync = nil
+	if b.ColdStart {
+		b.Ctx = sim.NewColdContext(b.API, "ctrl", b.Configs)
+		b.Unsynced = append([]string(nil), b.ColdResources...)
+		if len(b.Unsynced) == 0 {
+			b.Unsynced = []string{sim.JobConfigs, sim.Jobs, sim.Pods}
+		}
+		// resources outside ColdResources list at once
+		for _, inf := range b.Ctx.Set.All() {
+			if !contains(b.Unsynced, inf.Resource) {
+				b.API.Watch(inf)
+				inf.SyncFrom(b.API.List(inf.Resource))
+			}
+		}
+	} else {
+		b.Ctx = sim.NewContext(b.API, "ctrl", false, b.Configs)
+	}
 	b.Build(b)
+}
+
+func contains(list []string, s string) bool {
+	for _, x := range list {
+		if x == s {
+			return true
+		}
+	}
+	return false
+}
+
+// WhenSynced runs f once every informer has listed: immediately, except during a cold start.
+func (b *Base) WhenSynced(f func()) {
+	if len(b.Unsynced) > 0 {
+		b.afterSync = append(b.afterSync, f)
+		return
+	}
+	f()
 }
 
 // AddQueue registers a queue and its worker.
@@ -183,11 +225,17 @@ func (b *Base) Now() time.Time { return b.Clock.Now() }
 func (b *Base) Offset() float64 { return b.Clock.Now().Sub(sim.Epoch).Seconds() }
 
 func (b *Base) IsSystem(a string) bool {
-	return strings.HasPrefix(a, "deliver:") || strings.HasPrefix(a, "work:") || strings.HasPrefix(a, "listener:") || a == "resync"
+	return strings.HasPrefix(a, "deliver:") || strings.HasPrefix(a, "work:") || strings.HasPrefix(a, "listener:") || strings.HasPrefix(a, "sync:") || a == "resync"
 }
 
 func (b *Base) systemActions() []string {
 	var out []string
+	if len(b.Unsynced) > 0 {
+		for _, r := range b.Unsynced {
+			out = append(out, "sync:"+r)
+		}
+		return out
+	}
 	pending := b.Ctx.Set.PendingTotal()
 	for _, inf := range b.Ctx.Set.All() {
 		if inf.Pending() > 0 {
@@ -238,6 +286,9 @@ func (b *Base) nextInstant() (time.Time, bool) {
 
 func (b *Base) Enabled() []string {
 	out := b.systemActions()
+	if len(b.Unsynced) > 0 {
+		return out // nothing else happens before the caches have synced
+	}
 	pending := b.Ctx.Set.PendingTotal()
 	if pending <= b.Budget.Lag {
 		if b.EnvEnabled != nil {
@@ -287,6 +338,7 @@ func (b *Base) Features() []string {
 
 // Apply executes one action.
 func (b *Base) Apply(action string) {
+	versionBefore := b.API.Version()
 	switch {
 	case strings.HasPrefix(action, "deliver:"):
 		res := strings.TrimPrefix(action, "deliver:")
@@ -307,6 +359,30 @@ func (b *Base) Apply(action string) {
 		b.API.BeginStep(nil)
 		for _, inf := range b.Ctx.Set.All() {
 			inf.Resync()
+		}
+		b.calls = nil
+	case strings.HasPrefix(action, "sync:"):
+		res := strings.TrimPrefix(action, "sync:")
+		if !contains(b.Unsynced, res) {
+			panic("sync of a synced resource: " + action)
+		}
+		b.API.BeginStep(nil)
+		inf := b.Ctx.Set.ByResource(res)
+		b.API.Watch(inf)
+		inf.SyncFrom(b.API.List(res))
+		var rest []string
+		for _, r := range b.Unsynced {
+			if r != res {
+				rest = append(rest, r)
+			}
+		}
+		b.Unsynced = rest
+		if len(rest) == 0 {
+			fs := b.afterSync
+			b.afterSync = nil
+			for _, f := range fs {
+				f()
+			}
 		}
 		b.calls = nil
 	case strings.HasPrefix(action, "work:"):
@@ -333,12 +409,13 @@ func (b *Base) Apply(action string) {
 		b.calls = nil
 	}
 	// A resync round is owed after anything that changes the world: environment and clock
-	// steps, and syncs that issued API calls. Deliveries and the resync's own no-op syncs do
-	// not re-arm it (otherwise the round would repeat forever).
+	// steps, and syncs that changed something in the API. Deliveries and the resync's own
+	// no-op syncs (including writes that change nothing) do not re-arm it (otherwise the round
+	// would repeat forever).
 	switch {
 	case action == "resync":
 		b.ResyncPending = false
-	case !b.IsSystem(action), strings.HasPrefix(action, "work:") && len(b.calls) > 0:
+	case !b.IsSystem(action), strings.HasPrefix(action, "work:") && b.API.Version() != versionBefore:
 		b.ResyncPending = true
 	}
 	if b.AfterStep != nil {
@@ -617,6 +694,9 @@ func (b *Base) dump() keyDump {
 	if b.ResyncMode && b.ResyncPending {
 		d.Pending["resync-pending"] = []string{"yes"}
 	}
+	if len(b.Unsynced) > 0 {
+		d.Pending["unsynced"] = append([]string(nil), b.Unsynced...)
+	}
 	for _, qn := range b.QueueNames {
 		q := b.Queues[qn]
 		delayed := map[string]int64{}
@@ -677,7 +757,7 @@ func (b *Base) InstallClock() {
 
 // Snapshot captures the whole world state, or nil if unsupported.
 func (b *Base) Snapshot() interface{} {
-	if !b.Snap.CanSnapshot {
+	if !b.Snap.CanSnapshot || b.ColdStart {
 		return nil
 	}
 	s := &baseSnap{
